@@ -356,7 +356,7 @@ fn gen_entries(rng: &mut crate::rng::Rng, m: BiasMsg, shape: u64) -> (Vec<Entry>
     (es, on_grid, label)
 }
 
-fn case_json(m: BiasMsg, es: &[Entry], on_grid: &[bool]) -> J {
+pub fn case_json(m: BiasMsg, es: &[Entry], on_grid: &[bool]) -> J {
     json!({"kind":"bias-list","message":m.number(),"entries":es.iter().zip(on_grid.iter()).map(|(e,g)| json!([e.sat, e.band, e.attr as u32, e.bias.to_bits(), g])).collect::<Vec<_>>()})
 }
 
